@@ -291,6 +291,13 @@ const ClockSkewGracePeriod = time.Minute * 2
 func genCertTemplateFromCSR(csr *x509.CertificateRequest, subjectIDs []string, ttl time.Duration, isCA bool, signingCert *x509.Certificate) (
 	*x509.Certificate, error,
 ) {
+	// The SAN extension is built by splitting the comma-joined subject IDs again, so an ID that itself
+	// contains a comma would turn into several SAN entries that were never authenticated or authorized.
+	for _, id := range subjectIDs {
+		if strings.Contains(id, ",") {
+			return nil, fmt.Errorf("invalid subject ID %q: must not contain ','", id)
+		}
+	}
 	subjectIDsInString := strings.Join(subjectIDs, ",")
 	var keyUsage x509.KeyUsage
 	extKeyUsages := []x509.ExtKeyUsage{}
